@@ -8,7 +8,7 @@ from .common import EPS, TOL
 
 PROPERTY = "C03"
 LEVEL = "exploration"
-RUNS = {"quick": 1500, "thorough": 80000}
+RUNS = {"quick": 4000, "thorough": 80000}
 BUDGET = {"quick": 90, "thorough": 3000}
 RULE = ("seeded scenarios: 1-4 CON messages (client requests to scripted peers, separate CON responses "
         "of a real server) with random TransportTuning, per-copy scripted reaction (silence / ACK / RST / "
